@@ -106,9 +106,16 @@ def opFragOb (args : List String) (impl : String) : Verdict :=
 /-- `fragdecr cuts …decr args…`: the fragmented transport must not change anything, in particular not what is
 left in the caller's reader: model and spec verdict are those of `decr` -/
 def opFragDecr (args : List String) (impl : String) : Verdict :=
-  match args with
-  | _ :: rest => opDecr rest impl
-  | _ => bad "fragdecr"
+  match args, impl.splitOn " || " with
+  | _ :: rest, [a, b] =>
+    -- `a`: the run under the given slicing, `b`: the same on a reader that hands out everything at once
+    let v := opDecr rest a
+    { model := s!"{v.model} || {v.model}",
+      specFail := match v.specFail with
+        | some e => some e
+        | none => if a != b then some "the outcome depends on how the transport slices / suspends (C11)" else none,
+      nontrivial := v.nontrivial }
+  | _, _ => bad "fragdecr"
 
 /-- `fragenc m blob bs ranges corruption` -/
 def opFragEnc (args : List String) (impl : String) : Verdict :=
